@@ -544,7 +544,7 @@ def two_senders(res, rng, tier, schedule=None):
     written twice, and a command is written whole."""
     from mysensors.transport import BaseMySensorsProtocol, SyncTransport
     fails = []
-    msgs = ["1;1;1;0;2;1\n", "2;1;1;0;2;0\n"]
+    msgs = ["1;1;1;0;47;21.5 °C ünï\n", "2;1;1;0;2;0\n"]       # (commands carry whatever text the controller set)
     for trial in range(1 if schedule is not None else 80 if tier == "quick" else 2000):
         ctx = Ctx(timeout=2.0)
         writes = []
